@@ -67,6 +67,9 @@ func (o goStructObject) setValue(rt *runtime, name string, value Value) bool {
 	}
 
 	fieldValue := o.getValue(name)
+	if !fieldValue.CanSet() {
+		panic(rt.panicTypeError("Object.setValue: field %s of a struct passed by value is not addressable (pass a pointer)", name))
+	}
 	converted, err := rt.convertCallParameter(value, fieldValue.Type())
 	if err != nil {
 		panic(rt.panicTypeError("Object.setValue convertCallParameter: %s", err))
